@@ -36,7 +36,7 @@ def build(tier, seed):
                       kind='K2', contracts=['rb.h'], defines=['FLAVOUR=%d' % fl], replay='C08', timeout=300))
     nk = 3 if tier == 'quick' else 5
     for o in obs:      # a descent loop rewritten into another shape (other live variables) no longer fits the step harness: the whole-sequence obligations stand in, as bounded
-        if '.K2.descent.' in o.id:
+        if '.K2.descent.' in o.id or '.K2.fixup.' in o.id:
             o.stand_in = ['C08.K5.%s.%dkeys' % (o.id.rsplit('.', 1)[1], nk)]
     obs.append(Ob('C08.K3.height.step', u, 'C08/height.c', 'h_height_step', 'height lemma, induction step over the ghost summaries (black height, sizes, heights, colours): size >= 2^bh - 1 and height <= 2*bh (+1 under a red root)', kind='K3', contracts=['rb.h'], replay='C08', checks=False, timeout=300))
     obs.append(Ob('C08.K3.height.root', u, 'C08/height.c', 'h_height_root', 'height lemma, conclusion at a black root: height <= 2*log2(n + 1)', kind='K3', contracts=['rb.h'], replay='C08', checks=False, timeout=300))
